@@ -194,7 +194,7 @@ def run(ctx):
     ctx.rule = ("doubles (angle, tol): deterministic families (special values incl. -1e-20, +-2pi and neighbours; "
                 "m*pi/2^k and +-1..3 ulp; rest next to 255/2^k, 127/2^k, 128/2^k (d-window edges); within tol of 0 and of 2pi "
                 "in radians and in half turns, both signs) + random (uniform [0,2pi), [-2pi,0), 2pi<|a|<100, 1e-12<|a|<1, "
-                "1e2<|a|<1e6, 1e6<|a|<1e18), tol in {1e-1..1e-9} or log-uniform; plus rot_X/Y/Z(angle=) on a real connection "
+                "1e2<|a|<1e6, 1e6<|a|<1e18), tol in {1e-1..1e-9} or log-uniform (quick tier: every third member of the deterministic families); plus rot_X/Y/Z(angle=) on a real connection "
                 "(default tol; three routes: angle only, angle together with non-default n and d - which the documentation says are ignored -, n and d only - emitted verbatim; a Hadamard separates the calls) and as runs of 2..4 consecutive calls without separator (whole-run oracle per maximal same-axis group); every builder program under six configurations: default / hardware_config=NVHardwareConfig / compiler=NVSubroutineTranspiler, each with set_is_using_hardware False and True. Every case: implementation vs Coq model as exact (n,d) lists, and the oracle "
                 "(1<=n<=255, 0<=d<=255, circle distance |sum n*pi/2^d - angle| <= tol + 2^-49 in 80-digit rationals). "
                 "non-trivial = at least one rotation step emitted; distinct = distinct (angle bits, tol bits, route)")
@@ -223,11 +223,11 @@ def run(ctx):
     n_corpus = run_corpus(ctx, impl)
 
     # ---- generated stream: implementation + oracle
-    n_rand = 6000 if quick else 400000
-    gen = ac.gen_cases(ctx.rng, n_rand)
+    n_rand = 1000 if quick else 400000
+    gen = ac.gen_cases(ctx.rng, n_rand, thin=3 if quick else 1)
     cases, cls_count, len_count, tol_count, maxd = [], {}, {}, {}, 0
     fcases, unobserved = [], 0
-    n_front = 8000 if quick else 40000     # calls whose front-end values are observed and compared
+    n_front = 2500 if quick else 25000     # calls whose front-end values are observed and compared
     fe_max, fe_arg, fe_by_decade = 0.0, None, {}
     excess_max, excess_arg = -1.0, None
     for angle, tol, cls in gen:
@@ -277,9 +277,9 @@ def run(ctx):
     b_cfg = {}
     for k, rots in enumerate(bcases):
         for cfg in ac.CONFIGS:
-            # generic/simulation: every program (and the Coq correspondence); the other five
-            # configurations: every program in quick, every fourth in thorough
-            if cfg != GENERIC and not quick and k % 4 != ac.CONFIGS.index(cfg) % 4:
+            # generic/simulation: every program (and the Coq correspondence); each of the other five
+            # configurations: every third program in quick, every fourth in thorough
+            if cfg != GENERIC and k % (3 if quick else 4) != ac.CONFIGS.index(cfg) % (3 if quick else 4):
                 continue
             nr = builder_check(ctx, impl, rots, stats=stats, cases=cases if cfg == GENERIC else None, cfg=cfg)
             b_cfg["%s/hw=%s" % cfg] = b_cfg.get("%s/hw=%s" % cfg, 0) + nr
@@ -288,13 +288,14 @@ def run(ctx):
         for r in rots:
             b_kinds["n_d_only" if r.get("angle") is None else "angle_with_n_d" if ("n" in r or "d" in r) else "angle_only"] += 1
 
+    ctx.log(f"{len(bcases)} builder programs checked under the configurations")
     # ---- consecutive rotation calls without separator (whole-run oracle)
-    runs = [] if stats.get("timeouts", 0) >= 3 else ac.gen_builder_runs(ctx.rng, 400 if quick else 4000, impl.default_tol)
+    runs = [] if stats.get("timeouts", 0) >= 3 else ac.gen_builder_runs(ctx.rng, 300 if quick else 4000, impl.default_tol)
     run_diff = []
     r_cfg = {}
     for k, rots in enumerate(runs):
         for cfg in ac.CONFIGS:
-            if cfg != GENERIC and not quick and k % 4 != ac.CONFIGS.index(cfg) % 4:
+            if cfg != GENERIC and k % (3 if quick else 4) != ac.CONFIGS.index(cfg) % (3 if quick else 4):
                 continue
             r_cfg["%s/hw=%s" % cfg] = r_cfg.get("%s/hw=%s" % cfg, 0) + 1
             if not run_check(ctx, impl, rots, cfg=cfg, stats=stats):
@@ -311,8 +312,9 @@ def run(ctx):
         ctx.broken.append(f"builder run is not the concatenation of one instruction per step: {len(run_diff)} runs, first: "
                           f"{json.dumps([ac.rot_json(r) for r in run_diff[0]])[:400]}")
 
+    ctx.log(f"{len(runs)} consecutive-rotation runs checked")
     # ---- correspondence with the Coq model (vm_compute inside coqc)
-    n_coq = len(cases) if quick else min(len(cases), 80000)
+    n_coq = len(cases) if quick else min(len(cases), 50000)
     if not quick and n_coq < len(cases):
         # all deterministic families and builder cases, plus a random sample of the rest
         det = [i for i, c in enumerate(gen) if c[2] not in ("uniform[0,2pi)", "uniform[-2pi,0)")]
@@ -321,7 +323,12 @@ def run(ctx):
         sel = sorted(keep)
     else:
         sel = list(range(len(cases)))
-    codes = ac.correspond(ctx, [cases[i] for i in sel])
+    # both sets of case files are evaluated at the same time (separate coqc processes)
+    from concurrent.futures import ThreadPoolExecutor
+    with ThreadPoolExecutor(max_workers=2) as pool:
+        fut_front = pool.submit(ac.correspond_front, ctx, fcases, 250 if quick else 500)
+        codes = ac.correspond(ctx, [cases[i] for i in sel], per_file=250 if quick else 500)
+        fcodes = fut_front.result()
     mism = []
     if codes is not None:
         hist = {0: len(sel) - len(codes)}
@@ -339,7 +346,6 @@ def run(ctx):
         ctx.log(f"correspondence: {hist}")
     # ---- float front end: observed (rest, tol_rest) vs PrimFloat model vs rational model, allowance
     fmism = []
-    fcodes = ac.correspond_front(ctx, fcases)
     if fcodes is not None:
         fh = dict(cases=len(fcases), observed_in_the_implementation=len(fcases) - unobserved, replica_used=unobserved,
                   primfloat_differs_from_observed=0, rational_differs_from_primfloat=0,
